@@ -4,7 +4,7 @@
 # mutants/<prop>/*.patch and seeded/<prop>*/patch.diff marked as caught is applied to a scratch copy
 # (outside /repo and /verif, removed afterwards), one at a time, each in its own process, and must be
 # reported. The verdict on /repo comes from (1) only; a mutant that is expected to be caught and is
-# not makes the run fail as "undecided" (the rule lost its teeth).
+# not is reported as SENSITIVITY-LOST (and counted in the evidence) without changing the verdict.
 set -u
 here=$(cd "$(dirname "$0")/.." && pwd)
 prop=$1
@@ -40,15 +40,15 @@ for patch in $list; do
   fi
 done
 rm -rf "$scratch"
-export KINLINT_MUTANTS="total=$mut_total caught=$mut_caught skipped=$mut_skipped"
+export KINLINT_MUTANTS="total=$mut_total caught=$mut_caught skipped=$mut_skipped missed=$(echo $mut_missed | wc -w)"
 "$here/bin/kinlint" -property "$prop" -tier thorough -dir "$repo" -verif "$here"
 rcmain=$?
 [ $rcmain -ne 0 ] && rc=$rcmain
 echo "mutants: $KINLINT_MUTANTS"
 if [ -n "$mut_missed" ]; then
-  echo "sensitivity lost on:$mut_missed"
-  mkdir -p "$here/replay"; echo "{\"undecided\":\"mutants not caught\",\"list\":\"$mut_missed\"}" > "$here/replay/$prop-thorough-mutants.json"
-  echo "VIOLATION property=$prop replay=$here/replay/$prop-thorough-mutants.json"
-  rc=1
+  # a self-test of the machinery, not a verdict on /repo: reported, recorded in the evidence
+  # (KINLINT_MUTANTS), never a VIOLATION line -- a patch that still applies to an edited tree
+  # but no longer breaks anything there must not raise an alarm
+  echo "SENSITIVITY-LOST property=$prop patches:$mut_missed"
 fi
 exit $rc
